@@ -17,9 +17,12 @@ import (
 	"net/http"
 	"net/http/httptest"
 	"net/url"
+	"os"
+	"path/filepath"
 	"regexp"
 	"sort"
 	"strings"
+	"syscall"
 	"time"
 	"unicode/utf8"
 
@@ -948,13 +951,42 @@ func judge(hostile, harmless outcome) (clause, detail string) {
 
 // ---- Coq printing ---------------------------------------------------------------------------------------------
 
+// coqStr writes a byte string as a Coq term: printable runs (LF and TAB included) as literals, other bytes as hx "..".
+func coqStr(s string) string {
+	var segs []string
+	i := 0
+	for i < len(s) {
+		j := i
+		plain := func(c byte) bool { return c >= 0x20 && c < 0x7f || c == '\n' || c == '\t' }
+		if plain(s[i]) {
+			for j < len(s) && plain(s[j]) {
+				j++
+			}
+			segs = append(segs, "\""+strings.ReplaceAll(s[i:j], "\"", "\"\"")+"\"%string")
+		} else {
+			for j < len(s) && !plain(s[j]) {
+				j++
+			}
+			segs = append(segs, "(hx \""+hex.EncodeToString([]byte(s[i:j]))+"\")")
+		}
+		i = j
+	}
+	switch len(segs) {
+	case 0:
+		return "\"\"%string"
+	case 1:
+		return segs[0]
+	}
+	return "(sconcat [" + strings.Join(segs, "; ") + "])"
+}
+
 func coqVal(v *Val) (string, bool) {
 	if v == nil {
 		return "JNull", true
 	}
 	switch v.K {
 	case "str":
-		return "(JStr " + vx.CoqString(string(v.S)) + ")", true
+		return "(JStr " + coqStr(string(v.S)) + ")", true
 	case "int":
 		return "(JInt " + vx.CoqZ(fmt.Sprint(v.I)) + ")", true
 	case "bool":
@@ -983,7 +1015,7 @@ func coqVal(v *Val) (string, bool) {
 			if !ok {
 				return "", false
 			}
-			xs = append(xs, "("+vx.CoqString(string(v.O[i].K))+", "+t+")")
+			xs = append(xs, "("+coqStr(string(v.O[i].K))+", "+t+")")
 		}
 		return "(JObj " + vx.CoqList(xs) + ")", true
 	}
@@ -1001,7 +1033,7 @@ func coqTree(n Node) (string, bool) {
 		if !ok || coqOp(n.Op) == "" {
 			return "", false
 		}
-		return "(QLeaf " + vx.CoqString(string(n.Key)) + " " + coqOp(n.Op) + " " + v + ")", true
+		return "(QLeaf " + coqStr(string(n.Key)) + " " + coqOp(n.Op) + " " + v + ")", true
 	case "not":
 		if len(n.Items) != 1 {
 			return "", false
@@ -1025,7 +1057,7 @@ func coqTree(n Node) (string, bool) {
 
 func coqObs(frag string, o outcome, ok bool) (string, bool) {
 	if ok {
-		return "(ObsSQL " + vx.CoqString(frag) + ")", true
+		return "(ObsSQL " + coqStr(frag) + ")", true
 	}
 	switch o.Err {
 	case "invalid":
@@ -1064,7 +1096,7 @@ func (h *harness) coqCase(r *vx.Run, in Input, tw Node, count bool, variant, cc 
 	listing := map[string]string{"accounts": "LAccounts", "transactions": "LTransactions", "balances": "LBalances", "logs": "LLogs"}[in.Listing]
 	pit := map[string]string{"nil": "PNil", "zero": "PZero", "set": "PSet"}[in.PIT]
 	return fmt.Sprintf("{| c_listing := %s; c_pit := %s; c_ledger := %s; c_tree := %s; c_obs := %s; c_twin := %s; c_blank := %s; c_tokens := %d |}",
-		listing, pit, vx.CoqString(ledgerName), ct, o1, o2, vx.CoqString(bl), ntok)
+		listing, pit, coqStr(ledgerName), ct, o1, o2, coqStr(bl), ntok)
 }
 
 // ---- one input ------------------------------------------------------------------------------------------------
@@ -1329,6 +1361,9 @@ var listings = []string{"accounts", "transactions", "balances", "logs"}
 
 func main() {
 	r := vx.Start("C20", "sqltext")
+	if f, err := os.Create(filepath.Join(r.Out, "stderr.log")); err == nil { // bun and logrus write warnings to stderr
+		_ = syscall.Dup2(int(f.Fd()), 2)
+	}
 	r.Cases("From FL Require Import SqlText.Model.\n", "case", 300)
 	r.Sum.Rule = "filter trees ($match/$lt/$lte/$gt/$gte/and/or/not) over every key of each listing (address, account, source, destination, metadata[..], balance[..], balance, reference, timestamp, date, unknown keys) with hostile values (quotes, backslashes, ?, ?(, \\?, $1, --, /* */, NUL, newlines, invalid UTF-8, non-ASCII, long, nested JSON) sent through GetAccountsWithVolumes, CountAccounts, GetTransactions, CountTransactions, GetAggregatedBalances, GetLogs of the real store over a recording driver and through the real v1/v2 handlers; non-trivial = accepted by the store and some client string contains a quote, backslash or ?; distinct by the JSON of the input and list/count"
 	h := newHarness()
